@@ -235,22 +235,11 @@ func (e *executor) execute(ctx context.Context, index string, q *pql.Query, shar
 	span, ctx := tracing.StartSpanFromContext(ctx, "Executor.execute")
 	defer span.Finish()
 
-	// Don't bother calculating shards for query types that don't require it.
-	needsShards := needsShards(q.Calls)
-
 	// If shards are specified, then use that value for shards. If shards aren't
-	// specified, then include all of them.
-	if len(shards) == 0 && needsShards {
-		// Round up the number of shards.
-		idx := e.Holder.Index(index)
-		if idx == nil {
-			return nil, ErrIndexNotFound
-		}
-		shards = idx.AvailableShards().Slice()
-		if len(shards) == 0 {
-			shards = []uint64{0}
-		}
-	}
+	// specified, then include all of them. They are looked up for each call
+	// when it runs (see below) because an earlier Set in the same request may
+	// have created a shard.
+	allShards := len(shards) == 0
 
 	// Optimize handling for bulk attribute insertion.
 	if hasOnlySetRowAttrs(q.Calls) {
@@ -264,7 +253,20 @@ func (e *executor) execute(ctx context.Context, index string, q *pql.Query, shar
 			return nil, err
 		}
 
-		v, err := e.executeCall(ctx, index, call, shards, opt)
+		// Don't bother calculating shards for query types that don't require it.
+		callShards := shards
+		if allShards && needsShards([]*pql.Call{call}) {
+			idx := e.Holder.Index(index)
+			if idx == nil {
+				return nil, ErrIndexNotFound
+			}
+			callShards = idx.AvailableShards().Slice()
+			if len(callShards) == 0 {
+				callShards = []uint64{0}
+			}
+		}
+
+		v, err := e.executeCall(ctx, index, call, callShards, opt)
 		if err != nil {
 			return nil, err
 		}
